@@ -738,7 +738,11 @@ func runC05(r *vk.Run) {
 			}
 			c.Count("layouts_checked", 1)
 		}
-		if c.Idx%10 == 3 {
+		padEvery := 10
+		if c.Thorough() {
+			padEvery = 40 // 1.5 million cases: every 40th is still 37 500 queries x ~600 paddings
+		}
+		if c.Idx%padEvery == 3 {
 			// long query texts (a leading comment block, indentation): the text is read in pieces, and where a
 			// piece ends is no token boundary. The padding is grown byte by byte so that the ends of the 1 KiB,
 			// 2 KiB and 4 KiB pieces fall on every byte of the query in turn
